@@ -45,7 +45,7 @@ impl MemoryAccessor for ViceAdapter {
         let _ = self.send(ViceRequest::MemoryGet(MemoryDescriptor {
             cause_side_effects: false,
             start: address,
-            end: address + len as u16 - 1,
+            end: address.saturating_add((len as u16).saturating_sub(1)),
             memory_space: 0,
             bank_id: 0,
         }));
